@@ -330,9 +330,19 @@ def hook_symnco(model, mon):
             ref = ref + (-((Rg - Rg.mean(0, keepdim=True)) * LLg).mean())
         if A > 1:
             ref = ref + model.beta * (-((Rg - Rg.mean(1, keepdim=True)) * LLg).mean())
-            from rl4co.models.zoo.symnco.losses import invariance_loss
+            # invariance term (L_inv of the SymNCO paper): cosine similarity between the projected embeddings of the SAME
+            # instance under augmentation 0 and augmentation a, summed over a >= 1, averaged over instances and nodes. The
+            # augmented batch is laid out copy-major (row a*B + b is copy a of instance b), which is what the monitor uses
+            pe = out["proj_embeddings"]
+            if pe.shape[0] == A * B:
+                peg = pe.reshape(A, B, *pe.shape[1:])
+                sim = sum(torch.nn.functional.cosine_similarity(peg[0], peg[a], dim=-1) for a in range(1, A))
+                ref = ref + model.alpha * sim.mean()
+                mon.ctx.count("c16_symnco_invariance_terms")
+            else:
+                from rl4co.models.zoo.symnco.losses import invariance_loss
 
-            ref = ref + model.alpha * invariance_loss(out["proj_embeddings"], A)
+                ref = ref + model.alpha * invariance_loss(pe, A)
         mon.sig = dict(mon.sig, S_gt_1=S > 1, A_gt_1=A > 1, S_eq_A=(S == A))
         mon.compare(res["loss"], ref, params_of(model.policy), what="SymNCO loss", ll=LL)
         mon.ctx.nontrivial_case(dict(c=mon.case, step=mon.step))
